@@ -630,8 +630,9 @@ def _tmp():
     return tempfile.TemporaryDirectory(prefix="c14_", dir=shm if os.path.isdir(shm) and os.access(shm, os.W_OK) else None)
 
 
-def _build_spect_dir(root, lens, refkind, with_ali):
-    """writes the directory, returns per utterance the tensors as stored: (feat, ali|None, ref|None)"""
+def _build_spect_dir(root, lens, refkind, with_ali, f64=False):
+    """writes the directory, returns per utterance the tensors as stored: (feat, ali|None, ref|None); f64: float64 features
+    whose values float32 cannot represent (x + 1/3)"""
     import torch
 
     os.makedirs(os.path.join(root, "feat"))
@@ -642,6 +643,8 @@ def _build_spect_dir(root, lens, refkind, with_ali):
     utts = []
     for i, L in enumerate(lens):
         feat, ali, ref = _feat(i, L), None, None
+        if f64:
+            feat = feat.double() + 1.0 / 3.0
         torch.save(feat, os.path.join(root, "feat", _uid(i) + ".pt"))
         if with_ali:
             ali = _ali(i, L)
@@ -901,12 +904,12 @@ def check_loader_window(case):
     cm = _quiet()
     try:
         with _tmp() as root:
-            utts = _build_spect_dir(root, lens, "none", with_ali)
+            utts = _build_spect_dir(root, lens, "none", with_ali, bool(case.get("f64")))
             wins = []
             for f, _, _ in utts:
                 rows = f.tolist()
                 w = [spec_window(rows, t, left, right, reverse) for t in range(len(rows))]
-                wins.append(torch.tensor(w, dtype=torch.float32).view(len(rows), 1 + left + right, f.size(1)))
+                wins.append(torch.tensor(w, dtype=f.dtype).view(len(rows), 1 + left + right, f.size(1)))
 
             def mk(init_epoch):
                 p = dl.ContextWindowDataLoaderParams(batch_size=bs, drop_last=drop, context_left=left, context_right=right, reverse=reverse)
@@ -1140,6 +1143,9 @@ def cases_loader_window(ctx):
                     k += 1
                     yield dict(lens=lens, bs=bs, drop=drop, shuffle=shuffle, left=(k + j) % (cmax + 1), right=(k // 3 + 2 * j) % (cmax + 1), reverse=bool((k // 2) % 2),
                                sup_utt=bool((k + j) % 2), with_ali=bool((k // 5 + j) % 2), seed=3 + ctx.seed + k % 5)
+                    if k % 7 == 0:  # double-precision features: the windows must be the stored values, not their float32 roundings
+                        yield dict(lens=lens, bs=bs, drop=drop, shuffle=shuffle, left=k % (cmax + 1), right=(k // 2) % (cmax + 1), reverse=bool(k % 2),
+                                   sup_utt=bool((k // 7) % 2), with_ali=False, seed=3 + ctx.seed, f64=True)
     rng = random.Random(ctx.seed + 1407)
     for _ in range(0 if ctx.quick else 1500):
         n = rng.randint(0, 10)
